@@ -83,7 +83,7 @@ def run(ctx):
         else:
             t = build(rows)
         built[id(t)] = (t, ([r[0] for r in rows], [r[1] for r in rows], [chrom] * len(rows)))
-        if len(built) > 64:
+        if len(built) > 6:
             built.pop(next(iter(built)))
         return t
 
